@@ -118,7 +118,7 @@ package topics
 
 // Type invariant of the child maps of the retained trie: every child link leads to a node that has a map.
 //@ define vdefRTrie(m)
-//@   is allentries(m, func(k string, v *rnode) bool { return v != nil && v.rnodes != nil })
+//@   is allentries(m, func(k string, v *rnode) bool { return v != nil && gfield(v, "isrnode") == 1 }) && allobjs(rnode, "isrnode", func(x *rnode) bool { return x != nil && x.rnodes != nil })
 
 // What rinsert needs of the message it stores (the preconditions of PublishMessage.Len/Encode).
 //@ define vdefPubIn(msg)
@@ -128,7 +128,8 @@ package topics
 
 //@ func newRNode
 //@   ensures result != nil && fresh(result) && result.rnodes != nil && fresh(result.rnodes) && emptymap(result.rnodes) && result.msg == nil && len(result.buf) == 0 && cap(result.buf) == 0
-//@   modifies fields(result)
+//@   ensures[ghostdef-node] gfield(result, "isrnode") == 1
+//@   modifies fields(result), gfield(result, "isrnode")
 
 // rinsert (C08): at the last level the node gets its own copy of the message - a new message object decoded over a
 // new buffer that holds the message's encoding - with the same flags, topic and payload; nothing that existed before
@@ -136,7 +137,7 @@ package topics
 // objects and buffers handed out by earlier lookups keep their content whatever is retained later.
 //@ func (*rnode).rinsert
 //@   results err
-//@   requires rn != nil && rn.rnodes != nil && vdefRTrie(rn.rnodes) && vdefPubIn(msg)
+//@   requires rn != nil && gfield(rn, "isrnode") == 1 && vdefRTrie(rn.rnodes) && vdefPubIn(msg)
 //@   atcall (*rnode).rinsert requires[C08:descend] callee_rn == rn.rnodes[level] && haskey(rn.rnodes, level) && sameslice(callee_topic, rem) && callee_msg == msg && len(rem) < len(topic)
 //@   ensures[inv] vdefRTrie(rn.rnodes)
 //@   ensures[C08:stored-copy] len(topic) == 0 && err == nil ==> rn.msg != nil && fresh(rn.msg) && fresh(arr(rn.buf)) && len(rn.msg.mtypeflags) == 1 && !rn.msg.dirty && message.vdefPubParsed(rn.msg)
@@ -149,7 +150,8 @@ package topics
 //@   ensures[lemma-varint] len(topic) == 0 && err == nil && old(msg.dirty) ==> message.vspecVarintVal(rn.msg.dbuf, 1) == int(msg.remlen)
 //@   ensures[lemma-topiclen] len(topic) == 0 && err == nil && old(msg.dirty) ==> message.vspecBE16(rn.msg.dbuf, message.vspecH(rn.msg.dbuf)) == len(msg.topic) && len(rn.msg.topic) == len(msg.topic) && len(rn.msg.payload) == len(msg.payload)
 //@   ensures[lemma-clean] len(topic) == 0 && err == nil && !old(msg.dirty) && message.vdefPubParsed(msg) ==> len(rn.msg.dbuf) == len(msg.dbuf) && rn.msg.dbuf[0] == msg.dbuf[0] && message.vspecH(rn.msg.dbuf) == message.vspecH(msg.dbuf) && message.vspecBE16(rn.msg.dbuf, message.vspecH(rn.msg.dbuf)) == message.vspecBE16(msg.dbuf, message.vspecH(msg.dbuf)) && len(rn.msg.topic) == len(msg.topic) && len(rn.msg.payload) == len(msg.payload)
-//@   ensures[C08:stored-content] len(topic) == 0 && err == nil && (old(msg.dirty) || message.vdefPubParsed(msg)) ==> rn.msg.mtypeflags[0] == old(msg.mtypeflags[0]) && eqbytes(rn.msg.payload, msg.payload) && eqbytes(rn.msg.topic, msg.topic)
+//@   ensures[C08:stored-content-dirty] len(topic) == 0 && err == nil && old(msg.dirty) ==> rn.msg.mtypeflags[0] == old(msg.mtypeflags[0]) && eqbytes(rn.msg.payload, msg.payload) && eqbytes(rn.msg.topic, msg.topic)
+//@   ensures[C08:stored-content-clean] len(topic) == 0 && err == nil && !old(msg.dirty) && message.vdefPubParsed(msg) ==> rn.msg.mtypeflags[0] == old(msg.mtypeflags[0]) && eqbytes(rn.msg.payload, msg.payload) && eqbytes(rn.msg.topic, msg.topic)
 //@   ensures[C08:failed-keeps] len(topic) == 0 && err != nil ==> rn.msg == old(rn.msg) && sameslice(rn.buf, old(rn.buf))
 //@   ensures[C08:leaf-only] len(topic) == 0 ==> rn.rnodes == old(rn.rnodes)
 //@   modifies allfields(rnode), allmaps(map[string]*rnode), msg.remlen, msg.dirty, msg.packetID, elems(msg.packetID), message.gPacketID, gfield(0, "encn"), gfield(0, "encarr"), gfield(0, "encoff"), gfield(0, "encAt")
@@ -158,7 +160,7 @@ package topics
 // it holds no message and has no children left.
 //@ func (*rnode).rremove
 //@   results err
-//@   requires rn != nil && rn.rnodes != nil && vdefRTrie(rn.rnodes)
+//@   requires rn != nil && gfield(rn, "isrnode") == 1 && vdefRTrie(rn.rnodes)
 //@   atcall (*rnode).rremove requires[C08:descend] callee_rn == rn.rnodes[level] && haskey(rn.rnodes, level) && sameslice(callee_topic, rem) && len(rem) < len(topic)
 //@   ensures[inv] vdefRTrie(rn.rnodes)
 //@   ensures[C08:cleared] len(topic) == 0 ==> err == nil && rn.msg == nil && len(rn.buf) == 0 && rn.rnodes == old(rn.rnodes)
@@ -186,8 +188,191 @@ package topics
 // both under the retained-store lock, released on every path.
 //@ func (*MemTopics).Retain
 //@   results err
-//@   requires mt.rroot != nil && mt.rroot.rnodes != nil && vdefRTrie(mt.rroot.rnodes) && vdefPubIn(msg) && !held(addr(mt.rmu))
+//@   requires mt.rroot != nil && gfield(mt.rroot, "isrnode") == 1 && vdefRTrie(mt.rroot.rnodes) && vdefPubIn(msg) && !held(addr(mt.rmu))
 //@   atcall (*rnode).rremove requires[C08:clear-on-empty] len(msg.payload) == 0 && callee_rn == mt.rroot && sameslice(callee_topic, msg.topic) && held(addr(mt.rmu))
 //@   atcall (*rnode).rinsert requires[C08:store-otherwise] len(msg.payload) != 0 && callee_rn == mt.rroot && sameslice(callee_topic, msg.topic) && callee_msg == msg && held(addr(mt.rmu))
 //@   ensures[inv] vdefRTrie(mt.rroot.rnodes) && mt.rroot == old(mt.rroot)
 //@   modifies allfields(rnode), allmaps(map[string]*rnode), msg.remlen, msg.dirty, msg.packetID, elems(msg.packetID), message.gPacketID, gfield(0, "encn"), gfield(0, "encarr"), gfield(0, "encoff"), gfield(0, "encAt")
+
+// ---------------------------------------------------------------- subscription trie (C06)
+// Type invariant of the child maps of the subscription trie: every child link leads to a node that has a map and
+// whose subscriber and QoS lists have the same length.
+// Ghost: isnode marks the nodes made by newSNode (set there and nowhere else).
+//@ define vdefSTrie(m)
+//@   is allentries(m, func(k string, v *snode) bool { return v != nil && gfield(v, "isnode") == 1 }) && allobjs(snode, "isnode", func(x *snode) bool { return x != nil && x.snodes != nil && len(x.subs) == len(x.qos) && live(arr(x.subs)) && live(arr(x.qos)) })
+//@ define vdefSNode(sn)
+//@   is sn != nil && gfield(sn, "isnode") == 1 && vdefSTrie(sn.snodes)
+// The caller's result slices do not share storage with the lists of any node (the lists are never handed out).
+//@ define vdefSSep(subs, qoss)
+//@   is allobjs(snode, "isnode", func(x *snode) bool { return (arr(x.subs) != arr(*subs) || cap(*subs) == 0) && (arr(x.qos) != arr(*qoss) || cap(*qoss) == 0) })
+
+//@ func newSNode
+//@   ensures result != nil && fresh(result) && result.snodes != nil && fresh(result.snodes) && emptymap(result.snodes) && len(result.subs) == 0 && len(result.qos) == 0 && cap(result.subs) == 0 && cap(result.qos) == 0 && arr(result.subs) == 0 && arr(result.qos) == 0
+//@   ensures[ghostdef-node] gfield(result, "isnode") == 1
+//@   modifies fields(result), gfield(result, "isnode")
+
+// Subscriber identity (reflection-based): an uninterpreted but fixed relation on the two interface values.
+//@ func equal
+//@   flag bodyhash 8ac4de2a4668
+//@   trusted
+//@   pure
+//@   ensures result == ufb("equal", k1, k2)
+
+// sinsert (C06): at the last level the subscriber's entry is replaced (first entry equal to it gets the new QoS,
+// nothing else changes) or, if there is none, appended with that QoS; otherwise exactly one recursive call on the
+// child for the next level (created if absent) with the remaining levels and the same QoS and subscriber.
+//@ func (*snode).sinsert
+//@   results err
+//@   requires vdefSNode(sn)
+//@   atcall (*snode).sinsert requires[C06:descend] callee_sn == sn.snodes[level] && haskey(sn.snodes, level) && sameslice(callee_topic, rem) && callee_qos == qos && callee_sub == sub && len(rem) < len(topic)
+//@   loop 1 invariant -1 <= rangeindex && rangeindex < len(sn.subs) && len(sn.subs) == len(sn.qos) && forall(0, rangeindex+1, func(j int) bool { return !ufb("equal", sn.subs[j], sub) })
+//@   loop 1 invariant[frame] sameslice(sn.subs, old(sn.subs)) && sameslice(sn.qos, old(sn.qos)) && unchanged(sn.subs) && unchanged(sn.qos) && sn.snodes == old(sn.snodes)
+//@   loop 1 decreases len(sn.subs) - rangeindex
+//@   ensures[inv] vdefSNode(sn)
+//@   ensures[C06:leaf-ok] len(topic) == 0 ==> err == nil && sn.snodes == old(sn.snodes)
+//@   ensures[C06:replace] len(topic) == 0 && !forall(0, old(len(sn.subs)), func(i int) bool { return !ufb("equal", old(sn.subs[i]), sub) }) ==> sameslice(sn.subs, old(sn.subs)) && unchanged(sn.subs) && sameslice(sn.qos, old(sn.qos))
+//@        && forall(0, len(sn.qos), func(i int) bool { return sn.qos[i] == ite(ufb("equal", sn.subs[i], sub) && forall(0, i, func(j int) bool { return !ufb("equal", sn.subs[j], sub) }), qos, old(sn.qos[i])) })
+//@   ensures[C06:add] len(topic) == 0 && forall(0, old(len(sn.subs)), func(i int) bool { return !ufb("equal", old(sn.subs[i]), sub) }) ==> len(sn.subs) == old(len(sn.subs))+1 && len(sn.qos) == old(len(sn.qos))+1
+//@        && sn.subs[old(len(sn.subs))] == sub && sn.qos[old(len(sn.qos))] == qos
+//@        && forall(0, old(len(sn.subs)), func(i int) bool { return sn.subs[i] == old(sn.subs[i]) && sn.qos[i] == old(sn.qos[i]) })
+//@   modifies allfields(snode), allmaps(map[string]*snode), allelems(interface{}), allelems(byte)
+
+// sremove (C06): at the last level either all entries are dropped (nil subscriber) or the first entry equal to the
+// subscriber is removed, the others keeping their order and each its own QoS; no such entry is an error and changes
+// nothing. Otherwise one recursive call on the existing child for the next level (a missing child is an error).
+//@ func (*snode).sremove
+//@   results err
+//@   requires vdefSNode(sn)
+//@   atcall (*snode).sremove requires[C06:descend] callee_sn == sn.snodes[level] && haskey(sn.snodes, level) && sameslice(callee_topic, rem) && callee_sub == sub && len(rem) < len(topic)
+//@   loop 1 invariant -1 <= rangeindex && rangeindex < len(sn.subs) && len(sn.subs) == len(sn.qos) && forall(0, rangeindex+1, func(j int) bool { return !ufb("equal", sn.subs[j], sub) })
+//@   loop 1 invariant[frame] sameslice(sn.subs, old(sn.subs)) && sameslice(sn.qos, old(sn.qos)) && unchanged(sn.subs) && unchanged(sn.qos) && sn.snodes == old(sn.snodes)
+//@   loop 1 decreases len(sn.subs) - rangeindex
+//@   ensures[inv] vdefSNode(sn)
+//@   ensures[C06:remove-all] len(topic) == 0 && sub == nil ==> err == nil && len(sn.subs) == 0 && len(sn.qos) == 0
+//@   ensures[C06:not-found] len(topic) == 0 && sub != nil && forall(0, old(len(sn.subs)), func(i int) bool { return !ufb("equal", old(sn.subs[i]), sub) }) ==> err != nil && sameslice(sn.subs, old(sn.subs)) && sameslice(sn.qos, old(sn.qos)) && unchanged(sn.subs) && unchanged(sn.qos)
+//@   ensures[C06:removed] len(topic) == 0 && sub != nil && err == nil ==> len(sn.subs) == old(len(sn.subs))-1 && len(sn.qos) == old(len(sn.qos))-1
+//@        && forall(0, len(sn.subs), func(i int) bool { return forall(0, i+1, func(j int) bool { return !ufb("equal", old(sn.subs[j]), sub) }) ==> sn.subs[i] == old(sn.subs[i]) && sn.qos[i] == old(sn.qos[i]) })
+//@        && forall(0, len(sn.subs), func(i int) bool { return !forall(0, i+1, func(j int) bool { return !ufb("equal", old(sn.subs[j]), sub) }) ==> sn.subs[i] == old(sn.subs[i+1]) && sn.qos[i] == old(sn.qos[i+1]) })
+//@   ensures[C06:leaf-map] len(topic) == 0 ==> sn.snodes == old(sn.snodes)
+//@   modifies allfields(snode), allmaps(map[string]*snode), allelems(interface{}), allelems(byte)
+
+// matchQos (C06): appends every entry of the node, in order, with QoS min(publish QoS, entry QoS).
+// Ghost: nmq counts matchQos calls.
+//@ func (*snode).matchQos
+//@   requires sn != nil && len(sn.subs) == len(sn.qos) && subs != nil && qoss != nil && len(*subs) == len(*qoss)
+//@   requires (arr(*subs) != arr(sn.subs) || cap(*subs) == 0) && (arr(*qoss) != arr(sn.qos) || cap(*qoss) == 0)
+//@   loop 1 invariant -1 <= rangeindex && rangeindex < len(sn.subs) && len(*subs) == old(len(*subs))+rangeindex+1 && len(*qoss) == old(len(*qoss))+rangeindex+1
+//@   loop 1 invariant[appended] forall(0, rangeindex+1, func(i int) bool { return (*subs)[old(len(*subs))+i] == sn.subs[i] && (*qoss)[old(len(*qoss))+i] == min(qos, sn.qos[i]) })
+//@   loop 1 invariant[prefix] forall(0, old(len(*subs)), func(i int) bool { return (*subs)[i] == old((*subs)[i]) && (*qoss)[i] == old((*qoss)[i]) })
+//@   loop 1 invariant[frame] sameslice(sn.subs, old(sn.subs)) && sameslice(sn.qos, old(sn.qos)) && unchanged(sn.subs) && unchanged(sn.qos) && (arr(*subs) != arr(sn.subs) || cap(*subs) == 0) && (arr(*qoss) != arr(sn.qos) || cap(*qoss) == 0)
+//@   loop 1 invariant[arrays] (fresh(arr(*subs)) || (arr(*subs) == arr(old(*subs)) && cap(*subs) == cap(old(*subs)))) && (fresh(arr(*qoss)) || (arr(*qoss) == arr(old(*qoss)) && cap(*qoss) == cap(old(*qoss))))
+//@   loop 1 decreases len(sn.subs) - rangeindex
+//@   ensures[C06:appended] len(*subs) == old(len(*subs))+len(sn.subs) && len(*qoss) == len(*subs) && forall(0, len(sn.subs), func(i int) bool { return (*subs)[old(len(*subs))+i] == sn.subs[i] && (*qoss)[old(len(*qoss))+i] == min(qos, sn.qos[i]) })
+//@   ensures[C06:prefix] forall(0, old(len(*subs)), func(i int) bool { return (*subs)[i] == old((*subs)[i]) && (*qoss)[i] == old((*qoss)[i]) })
+//@   ensures[arrays] (fresh(arr(*subs)) || (arr(*subs) == arr(old(*subs)) && cap(*subs) == cap(old(*subs)))) && (fresh(arr(*qoss)) || (arr(*qoss) == arr(old(*qoss)) && cap(*qoss) == cap(old(*qoss))))
+//@   ensures[C06:node-untouched] sameslice(sn.subs, old(sn.subs)) && sameslice(sn.qos, old(sn.qos)) && unchanged(sn.subs) && unchanged(sn.qos)
+//@   ensures[ghostdef-mq] gfield(0, "nmq") == old(gfield(0, "nmq"))+1
+//@   modifies *subs, *qoss, allelems(interface{}), allelems(byte), heap("GF.nmq")
+
+// smatch (C06): at the last level the node's own entries are appended and, if the node has a "#" child, that
+// child's entries too (a trailing '#' also matches its parent level); otherwise every child is looked at exactly
+// once: the "#" child's entries are appended, the "+" child and the child named like the next level are searched
+// with the remaining levels, and no other child is touched. Ghost: nmq / nsm count matchQos / smatch calls.
+//@ func (*snode).smatch
+//@   results err
+//@   requires vdefSNode(sn) && subs != nil && qoss != nil && len(*subs) == len(*qoss) && vdefSSep(subs, qoss)
+//@   atcall outloop (*snode).matchQos requires[C06:which-node] len(topic) == 0 && (callee_sn == sn || (haskey(sn.snodes, MWC) && callee_sn == sn.snodes[MWC]))
+//@   atcall inloop (*snode).matchQos requires[C06:which-node] len(topic) != 0 && k == MWC && callee_sn == n
+//@   atcall (*snode).matchQos requires[C06:same-request] callee_qos == qos && callee_subs == subs && callee_qoss == qoss
+//@   atcall (*snode).smatch requires[C06:descend] (k == SWC || k == level) && k != MWC && callee_sn == n && sameslice(callee_topic, rem) && callee_qos == qos && callee_subs == subs && callee_qoss == qoss && len(rem) < len(topic)
+//@   loop 1 invariant vdefSNode(sn) && len(*subs) == len(*qoss) && gfield(0, "nmq") >= old(gfield(0, "nmq")) && gfield(0, "nsm") >= old(gfield(0, "nsm")) && len(topic) != 0 && len(*subs) >= old(len(*subs)) && vdefSSep(subs, qoss)
+//@   loop 1 step[C06:mwc-child] k == MWC ==> gfield(0, "nmq") == old(gfield(0, "nmq"))+1 && gfield(0, "nsm") == old(gfield(0, "nsm"))
+//@   loop 1 step[C06:matching-child] k != MWC && (k == SWC || k == level) ==> gfield(0, "nsm") > old(gfield(0, "nsm"))
+//@   loop 1 step[C06:other-child] k != MWC && k != SWC && k != level ==> gfield(0, "nmq") == old(gfield(0, "nmq")) && gfield(0, "nsm") == old(gfield(0, "nsm")) && len(*subs) == old(len(*subs))
+//@   ensures[inv] vdefSNode(sn) && len(*subs) == len(*qoss) && vdefSSep(subs, qoss)
+//@   ensures[C06:leaf] len(topic) == 0 ==> err == nil && gfield(0, "nmq") == old(gfield(0, "nmq")) + 1 + ite(haskey(sn.snodes, MWC), 1, 0)
+//@   ensures[C06:all-children] len(topic) != 0 && err == nil ==> allvisited()
+//@   ensures[C06:monotone] gfield(0, "nmq") >= old(gfield(0, "nmq")) && len(*subs) >= old(len(*subs))
+//@   ensures[ghostdef-sm] gfield(0, "nsm") > old(gfield(0, "nsm"))
+//@   modifies *subs, *qoss, allelems(interface{}), allelems(byte), heap("GF.nmq"), heap("GF.nsm")
+
+// rmatch (C06, C08): at the last level the node's message (if any) is appended; '#' appends every message at or
+// below the node (allRetained); '+' searches every child, each exactly once, with the remaining levels; any other
+// level searches just the child of that name. allRetained appends the node's message and visits every child.
+// Ghost: nrm / nar count rmatch / allRetained calls.
+//@ define vdefRNode(rn)
+//@   is rn != nil && gfield(rn, "isrnode") == 1 && vdefRTrie(rn.rnodes)
+//@ func (*rnode).allRetained
+//@   requires vdefRNode(rn) && msgs != nil
+//@   atcall (*rnode).allRetained requires[C08:children] callee_rn == n && callee_msgs == msgs
+//@   loop 1 invariant vdefRNode(rn) && gfield(0, "nar") >= old(gfield(0, "nar")) && len(*msgs) >= old(len(*msgs)) && msgs != nil && (old(rn.msg) != nil ==> len(*msgs) >= old(len(*msgs))+1)
+//@   loop 1 step[C08:each-child] gfield(0, "nar") > old(gfield(0, "nar"))
+//@   ensures[inv] vdefRNode(rn)
+//@   ensures[C08:own-message] old(rn.msg) != nil ==> len(*msgs) >= old(len(*msgs))+1
+//@   ensures[C08:all-children] allvisited()
+//@   ensures[C08:monotone] len(*msgs) >= old(len(*msgs))
+//@   ensures[ghostdef-ar] gfield(0, "nar") > old(gfield(0, "nar"))
+//@   modifies *msgs, allelems(*message.PublishMessage), heap("GF.nar")
+
+//@ func (*rnode).rmatch
+//@   results err
+//@   requires vdefRNode(rn) && msgs != nil
+//@   atcall (*rnode).allRetained requires[C08:mwc] level == MWC && callee_rn == rn && callee_msgs == msgs
+//@   atcall inloop (*rnode).rmatch requires[C08:swc] level == SWC && level != MWC && callee_rn == n && sameslice(callee_topic, rem) && callee_msgs == msgs && len(rem) < len(topic)
+//@   atcall outloop (*rnode).rmatch requires[C08:literal] level != SWC && level != MWC && haskey(rn.rnodes, level) && callee_rn == rn.rnodes[level] && sameslice(callee_topic, rem) && callee_msgs == msgs && len(rem) < len(topic)
+//@   loop 1 invariant vdefRNode(rn) && gfield(0, "nrm") >= old(gfield(0, "nrm")) && len(*msgs) >= old(len(*msgs)) && msgs != nil && len(topic) != 0 && level == SWC
+//@   loop 1 step[C08:each-child] gfield(0, "nrm") > old(gfield(0, "nrm"))
+//@   ensures[inv] vdefRNode(rn)
+//@   ensures[C08:leaf] len(topic) == 0 ==> err == nil && ((old(rn.msg) != nil && len(*msgs) == old(len(*msgs))+1 && (*msgs)[old(len(*msgs))] == old(rn.msg)) || (old(rn.msg) == nil && len(*msgs) == old(len(*msgs))))
+//@   ensures[C08:leaf-prefix] len(topic) == 0 ==> forall(0, old(len(*msgs)), func(i int) bool { return (*msgs)[i] == old((*msgs)[i]) })
+//@   ensures[C08:monotone] len(*msgs) >= old(len(*msgs))
+//@   ensures[ghostdef-rm] gfield(0, "nrm") > old(gfield(0, "nrm"))
+//@   modifies *msgs, allelems(*message.PublishMessage), heap("GF.nrm"), heap("GF.nar")
+
+// ---------------------------------------------------------------- MemTopics: the provider methods over the tries
+//@ define vdefMT(mt)
+//@   is mt != nil && vdefSNode(mt.sroot) && vdefRNode(mt.rroot) && !held(addr(mt.smu)) && !held(addr(mt.rmu)) && addr(mt.smu) != addr(mt.rmu)
+
+//@ func NewMemProvider
+//@   flag noframe
+//@   ensures result != nil && fresh(result) && result.sroot != nil && result.rroot != nil && gfield(result.sroot, "isnode") == 1 && gfield(result.rroot, "isrnode") == 1
+//@   modifies fields(result)
+
+// Subscribe: an invalid QoS or a nil subscriber is refused before the store is touched; otherwise the filter is
+// inserted for the subscriber with min(requested, MaxQosAllowed), which is also the answer; an invalid filter yields
+// 0x80 and an error. Always under the subscription lock, released on every path.
+//@ func (*MemTopics).Subscribe
+//@   results rqos, err
+//@   requires vdefMT(mt)
+//@   atcall (*snode).sinsert requires[C06:granted-qos] callee_sn == mt.sroot && sameslice(callee_topic, topic) && callee_sub == sub && callee_qos == ite(qos > MaxQosAllowed, MaxQosAllowed, qos) && qos <= 2 && sub != nil && held(addr(mt.smu))
+//@   ensures[C07:granted] err == nil ==> qos <= 2 && rqos == ite(qos > MaxQosAllowed, MaxQosAllowed, qos)
+//@   ensures[C07:rejected] err != nil ==> rqos == 128
+//@   ensures[C06:invalid-untouched] (qos > 2 || sub == nil) ==> err != nil && preservedobjs(snode) && preservedmaps(mt.sroot.snodes)
+//@   ensures[inv] vdefSNode(mt.sroot) && mt.sroot == old(mt.sroot)
+//@   modifies allfields(snode), allmaps(map[string]*snode), allelems(interface{}), allelems(byte), heap("GF.isnode")
+
+//@ func (*MemTopics).Unsubscribe
+//@   results err
+//@   requires vdefMT(mt)
+//@   atcall (*snode).sremove requires[C06:same-request] callee_sn == mt.sroot && sameslice(callee_topic, topic) && callee_sub == sub && held(addr(mt.smu))
+//@   ensures[inv] vdefSNode(mt.sroot) && mt.sroot == old(mt.sroot)
+//@   modifies allfields(snode), allmaps(map[string]*snode), allelems(interface{}), allelems(byte)
+
+// Subscribers: the result lists are emptied first and then filled by one search from the root for exactly that topic
+// and publish QoS, under the read lock.
+//@ func (*MemTopics).Subscribers
+//@   results err
+//@   requires vdefMT(mt) && subs != nil && qoss != nil && vdefSSep(subs, qoss)
+//@   atcall (*snode).smatch requires[C06:fresh-lists] len(*subs) == 0 && len(*qoss) == 0 && callee_sn == mt.sroot && sameslice(callee_topic, topic) && callee_qos == qos && callee_subs == subs && callee_qoss == qoss && qos <= 2
+//@   ensures[C06:invalid-qos] qos > 2 ==> err != nil
+//@   ensures[C06:lists] err == nil ==> len(*subs) == len(*qoss)
+//@   ensures[inv] vdefSNode(mt.sroot)
+//@   modifies *subs, *qoss, allelems(interface{}), allelems(byte), heap("GF.nmq"), heap("GF.nsm")
+
+//@ func (*MemTopics).Retained
+//@   results err
+//@   requires vdefMT(mt) && msgs != nil
+//@   atcall (*rnode).rmatch requires[C08:same-request] callee_rn == mt.rroot && sameslice(callee_topic, topic) && callee_msgs == msgs
+//@   ensures[C08:appends] len(*msgs) >= old(len(*msgs))
+//@   ensures[inv] vdefRNode(mt.rroot)
+//@   modifies *msgs, allelems(*message.PublishMessage), heap("GF.nrm"), heap("GF.nar")
